@@ -55,7 +55,12 @@ theorem helper_default_modes :
        ("dobin", some 0o755, none, true), ("dosbin", some 0o755, none, true), ("dolib", none, none, false),
        ("dolib.so", none, none, false), ("dolib.a", none, none, false), ("doman", some 0o644, none, false),
        ("domo", some 0o644, none, false), ("dosym", none, none, false), ("dohard", none, none, false),
-       ("keepdir", none, some 0o755, false)] := by decide
+       ("keepdir", none, some 0o755, false)] ∧
+    -- only dobin/dosbin force an owner: root:root
+    Generated.C33.helpers.map (fun h => (h.insOwner, h.insGroup)) =
+      [(none, none), (none, none), (none, none), (none, none), (none, none), (none, none), (some 0, some 0),
+       (some 0, some 0), (none, none), (none, none), (none, none), (none, none), (none, none), (none, none),
+       (none, none), (none, none)] := by decide
 
 /-! ## what a successful request does to the image -/
 
@@ -97,10 +102,51 @@ theorem run_last_entry (u : Umask) (fs fs' : Fs) (before : List Op) (op : Op) (a
   rw [(runOps_facts u after fs2 fs' h4).frame op.path hlater]
   exact this
 
-example : ((runOps ⟨0o750, 0o640⟩ emptyFs
-    [.mkdirs [['u'], ['b']] none, .copy (.file 7) [['u'], ['b'], ['x']] (some 0o755)]).toOption.map
+example : ((runOps ⟨⟨0o750, 0, 0⟩, ⟨0o640, 0, 0⟩⟩ emptyFs
+    [.mkdirs [['u'], ['b']] none, .copy (.file 7) [['u'], ['b'], ['x']] (some ⟨0o4755, none, some 250⟩)]).toOption.map
       (fun fs => (fs [['u']], fs [['u'], ['b'], ['x']], fs [['v']])))
-    = some (some (.dir 0o750), some (.file 0o755 7), none) := by decide
+    = some (some (.dir ⟨0o750, 0, 0⟩), some (.file ⟨0o4755, 0, 250⟩ 7), none) := by decide
+
+/-- **the requested mode and owner are what the installed file has**: an operation that installs a regular
+file with install options `-m M [-o U] [-g G]` leaves exactly mode `M` — set-id and sticky bits included —
+and owner `U`/group `G` where given (the process's ids otherwise); a directory created with directory
+options gets mode `M` and the given ids, keeping the ids it had where none is given -/
+theorem requested_mode_and_owner (u : Umask) (fs fs' : Fs) (before after : List Op) (p : Path) (id : Nat) (a : Attr)
+    (h : runOps u fs (before ++ Op.copy (.file id) p (some a) :: after) = .ok fs')
+    (hlater : ∀ o ∈ after, ¬ p <+: o.path) :
+    fs' p = some (.file ⟨a.mode, a.owner.getD u.fileMode.uid, a.group.getD u.fileMode.gid⟩ id) := by
+  obtain ⟨fs1, _, h2⟩ := run_last_entry u fs fs' before (Op.copy (.file id) p (some a)) after h hlater
+  simpa [Op.leafOk, Op.path, Attr.over] using h2
+
+example : (⟨0o4755, some 0, none⟩ : Attr).over ⟨0o644, 7, 8⟩ = ⟨0o4755, 0, 8⟩ := by decide
+
+/-- **a request's placement depends only on that request**: serving a sequence of requests with one helper
+table is serving the last one on the image the others left — its plan is computed from the request alone
+(no state is carried by the helpers; `dosym` alone looks at the image, and only at whether its link name is
+a directory there) -/
+theorem request_independent_of_history (u : Umask) (fs : Fs) (earlier : List Request) (r : Request) :
+    runRequests u fs (earlier ++ [r]) =
+      (match runRequests u fs earlier with
+       | .ok fs' => execute u fs' (r.plan fs')
+       | .error e => .error e) ∧
+    (∀ fs₁ fs₂ : Fs, (∀ c ra rel s t, r = .dosym c ra rel s t → fs₁.isDir (toPath t) = fs₂.isDir (toPath t)) →
+      r.plan fs₁ = r.plan fs₂) := by
+  constructor
+  · induction earlier generalizing fs with
+    | nil =>
+      simp only [List.nil_append, runRequests]
+      cases execute u fs (r.plan fs) <;> rfl
+    | cons q rest ih =>
+      simp only [List.cons_append, runRequests]
+      cases execute u fs (q.plan fs) with
+      | error e => rfl
+      | ok fs' => exact ih fs'
+  · intro fs₁ fs₂ hd
+    cases r with
+    | dosym c ra rel s t =>
+      have := hd c ra rel s t rfl
+      simp only [Request.plan, dosymPlan, this]
+    | _ => rfl
 
 /-! ## placement per helper -/
 
@@ -112,9 +158,9 @@ theorem basename_install_placement (c : Ctx) (ts : List Target) :
   unfold installPlan prescribed
   exact wrapperRun_entries c ts _ _ (installByBasename_entries c ts)
 
-example : (installPlan .basenameInstall ⟨"/usr/bin".toList, some 0o755, none⟩ [⟨"src/tool".toList, .file 3⟩]).toOption =
+example : (installPlan .basenameInstall ⟨"/usr/bin".toList, some ⟨0o755, some 0, some 0⟩, none⟩ [⟨"src/tool".toList, .file 3⟩]).toOption =
     some [.mkdirs [['u','s','r'], ['b','i','n']] none,
-         .copy (.file 3) [['u','s','r'], ['b','i','n'], ['t','o','o','l']] (some 0o755)] := by decide
+         .copy (.file 3) [['u','s','r'], ['b','i','n'], ['t','o','o','l']] (some ⟨0o755, some 0, some 0⟩)] := by decide
 
 /-- **a directory argument needs `-r`** (and `dodoc -r` needs EAPI ≥ 4): doins, dodoc and dohtml reject
 it with "is a directory"; the helpers without `-r` support reject a directory too -/
@@ -170,7 +216,7 @@ theorem recursive_install_mirrors_tree (c : Ctx) (ts : List Target) :
     unfold dodocTargets
     cases r <;> cases allow <;> simp
 
-example : (installPlan (.doins true) ⟨"/s".toList, some 0o644, some 0o700⟩
+example : (installPlan (.doins true) ⟨"/s".toList, some ⟨0o644, none, none⟩, some ⟨0o700, none, none⟩⟩
     [⟨"d/".toList, .dir [("f".toList, .file 1), ("l".toList, .link "f".toList .toFile)]⟩]).toOption.map List.length
     = some 4 := by
   simp [installPlan, wrapperRun, checkTargets, doinsTargets, Target.isDir, fromDirs, walkDir, walkFiles, walkSubs,
@@ -241,7 +287,7 @@ theorem domo_placement (c : Ctx) (pn : Str) (hpn : isAbs pn = false) (ts : List 
   rw [domoLoop_eq_gen, moEntries_eq_gen c pn hpn]
   exact genLoop_rel c _ _ ts []
 
-example : (domoLoop ⟨"/usr/share/locale".toList, some 0o644, none⟩ "pn".toList []
+example : (domoLoop ⟨"/usr/share/locale".toList, some ⟨0o644, none, none⟩, none⟩ "pn".toList []
     [⟨"po/de.mo".toList, .file 1⟩, ⟨"de.mo".toList, .file 2⟩]).toOption.map List.length = some 3 := by decide
 
 /-- **dodir / keepdir**: exactly the named directories (mode from diropts), and for keepdir an empty
